@@ -34,7 +34,7 @@ def _reg(rng, names, p_raw_lie=0.25, p_fail=0.15, tagc=[0]):
 def _replay(rng, names, k):
     ty = rng.choice(names + [rng.randint(1, 9)])
     data = ",".join(str(rng.randint(0, 9)) for _ in range(rng.randint(0, 3))) or "-"
-    return "replay %d %d %d %s" % (k, 1000 + k, ty, data)
+    return "replay %d %d %d %s %d" % (k, 1000 + k, ty, data, rng.choice([0, 0, 3, 7]))
 
 def gen_c16(rng, tier, n):
     cases = []
@@ -46,7 +46,7 @@ def gen_c16(rng, tier, n):
         for seq in itertools.product(edges, repeat=k):
             lines = ["reg %d %d %d 0 %d 0" % (a, b, b, 10 + i) for i, (a, b) in enumerate(seq)]
             lines += ["reg %d %d %d 0 %d 0" % (a, b, b, 50 + i) for i, (a, b) in enumerate(edges) if a != b][:4]
-            lines += ["replay 1 1 %d 5" % t for t in names3]
+            lines += ["replay 1 1 %d 5 %d" % (t, t % 2) for t in names3]
             cases.append(lines)
     # random: up to 8 names, clears interleaved, raw upcasters returning other types, then apply everything
     for i in range(n):
@@ -65,7 +65,7 @@ def gen_c16(rng, tier, n):
             else:
                 lines.append(_replay(rng, names, j))
         for t in names:
-            lines.append("replay 9 9 %d 1" % t)
+            lines.append("replay 9 9 %d 1 %d" % (t, rng.choice([0, 0, 4])))
         cases.append(lines)
     return cases
 
@@ -105,7 +105,11 @@ def gen_c17(rng, tier, n):
             names = names + [101, 102, 103]
         for j, t in enumerate(names + [9]):
             data = ",".join(str(rng.randint(0, 9)) for _ in range(rng.randint(0, 3))) or "-"
-            lines.append("replay %d %d %d %s" % (j + 1, 7000 + j, t, data))
+            lines.append("replay %d %d %d %s %d" % (j + 1, 7000 + j, t, data, rng.choice([0, 0, 5, 9])))
+        if len(names) > k:
+            # the same typed source replayed again with the optional field absent / present
+            for j in range(3):
+                lines.append("replay %d %d 101 %d %d" % (20 + j, 7100 + j, j, rng.choice([0, 6, 0])))
         cases.append(lines)
     return cases
 
